@@ -94,7 +94,7 @@ def cases(draw, tier):
             "check_len": draw(st.sampled_from([0, 0, 3, 6])), "indel": draw(st.booleans()) and kind != "many_unique_sites",
             "heap": 10 ** 4 if kind == "many_unique_sites" else draw(st.sampled_from(
                 [1, 10, 1000, 1000, 10 ** 4, "inf" if kind in ("first_bad", "length_k", "last_symbol") else 10])),
-            "layout": draw(st.sampled_from([None, None, None, "F", "strided", "offset", "int32"])),
+            "layout": draw(st.sampled_from([None, None, None, "F", "strided", "offset", "int32", "readonly"])),
             "np_start": draw(st.sampled_from([False, False, True])),
             "np_args": draw(st.sampled_from([False, False, False, True]))}
 
@@ -106,9 +106,18 @@ def giant_cases(draw, tier):
     give-up logic runs on astronomically large integers."""
     k = draw(st.sampled_from([2, 2, 3]))
     rng = random.Random(draw(st.integers(0, 2 ** 32 - 1)))
-    rows = [rng.choice([7, 11, 13, 14, 3, 5, 6, 9, 10, 12]) for _ in range(4 ** k)]
+    unique = draw(st.sampled_from([True, False, False, True]))
+    if unique:
+        # (almost) functional graph: every vertex keeps one arc, a few keep two - nearly every error has exactly one
+        # repair, the candidate product stays below the heap limit and 1,000+ fragments are recombined
+        rows = [1 << rng.randrange(4) for _ in range(4 ** k)]
+        for _ in range(rng.randrange(3)):
+            v = rng.randrange(4 ** k)
+            rows[v] |= 1 << rng.randrange(4)
+    else:
+        rows = [rng.choice([7, 11, 13, 14, 3, 5, 6, 9, 10, 12]) for _ in range(4 ** k)]
     start = rng.randrange(4 ** k)
-    length = draw(st.integers(6000, 9000 if tier == "quick" else 16000))
+    length = draw(st.integers(11000, 15000)) if unique else draw(st.integers(6000, 9000 if tier == "quick" else 16000))
     table, v, out = o.succ_table(k), start, []
     for _ in range(length):
         j = rng.choice([j for j in range(4) if (rows[v] >> j) & 1])
@@ -118,7 +127,8 @@ def giant_cases(draw, tier):
     while pos < len(out) - 2 * k:
         out[pos] = rng.choice([c for c in "ACGT" if c != out[pos]])
         pos += step + rng.randrange(2)
-    return {"graph": {"k": k, "rows": rows, "start": start}, "text": "".join(out), "kind": "giant_damage",
+    return {"graph": {"k": k, "rows": rows, "start": start}, "text": "".join(out),
+            "kind": "giant_unique_repairs" if unique else "giant_damage",
             "check_len": draw(st.sampled_from([0, 0, 4])), "indel": draw(st.booleans()),
             "heap": draw(st.sampled_from([1, 1000, 1000, 10 ** 4])), "layout": None,
             "np_start": False, "np_args": False}
@@ -158,6 +168,8 @@ def evaluate(case):
         labels.append("sites>=30")
     if result[1][0] >= 65:
         labels.append("product_path_sites>=65")
+    if result[1][0] >= 1000:
+        labels.append("product_path_sites>=1000")
     if heap == float("inf"):
         labels.append("heap=inf")
     first = o.walk_states(rows, k, start, text[:1])
@@ -175,11 +187,12 @@ SUBCHECKS = [
              floors={"first_nucleotide_not_an_arc": 200, "kind:last_symbol": 200, "kind:last_window": 200,
                      "kind:length_k": 200, "kind:many_sites": 300, "not_walk": 1500, "k=8": 40, "heap=inf": 60,
                      "product_path_sites>=65": 15}, rule=RULE, timeout=120.0),
-    SubCheck("giant_damage", evaluate, strategy=giant_cases, examples=(48, 480), shards=(16, 16),
-             floors={"kind:giant_damage": 40, "not_walk": 40}, timeout=300.0,
+    SubCheck("giant_damage", evaluate, strategy=giant_cases, examples=(64, 640), shards=(16, 16),
+             floors={"kind:giant_damage": 15, "product_path_sites>=1000": 10, "not_walk": 40}, timeout=300.0,
              rule="Walks of 6,000..9,000 (thorough 16,000) nt on order-2/3 graphs with out-degree 2..3 carrying "
                   "600..1,700 separated substitutions, so that the product of per-site candidate counts exceeds "
-                  "2**1024; same oracle and budgets as always_returns. Non-trivial: the input is not a walk."),
+                  "2**1024, and walks of 11,000..15,000 nt on (almost) functional graphs carrying 1,000+ substitutions with one "
+                  "repair each (product within the heap limit: 1,000+ fragments recombined); same oracle and budgets as always_returns. Non-trivial: the input is not a walk."),
     SubCheck("fuzz_always_returns", evaluate, fuzz=("C10", (1500, 150000)), shards=(2, 8),
              rule="atheris/libFuzzer campaign: bytes are decoded into (graph from a pool of 64 arc subsets, start "
                   "vertex, string, options) and judged by the same oracle as the Hypothesis sub-check; coverage "
